@@ -53,7 +53,7 @@ def run(tier):
     seen = set()
     for f in failures:
         ev = f["event"]
-        why = [k for k in ("nbok", "unit", "eshok") if ev.get(k) is False]
+        why = [k for k in ("nbok", "unit", "eshok", "fresh") if ev.get(k) is False and (k != "fresh" or ev.get("div"))]
         key = "%s:%s:%s" % (ev.get("e"), ev.get("res", ""), "+".join(why) or "structure")
         if key in seen:
             continue
